@@ -169,9 +169,10 @@ def TASKS(tier):
     return (frontier_tasks(tier) +
             [t for t in start_tasks(tier, 'start', progress=False) if t.params.get('timed')] + fold_tasks(tier, 'fold') +
             keyed_fold_tasks(tier, 'keyed_fold') + window_op_tasks(tier, 'window_operator') +
-            flat_map_tasks(tier, 'flat_map'))
+            flat_map_tasks(tier, 'flat_map') + zip_wm_tasks(tier, 'zip'))
 
 
+from props.binary import zip_harness, zip_wm_tasks          # noqa: E402
 from props.start import start_harness, classify_start      # noqa: E402
 from props.ops import fold_harness, keyed_fold_harness, window_op_harness, flat_map_harness    # noqa: E402
 
